@@ -94,7 +94,7 @@ pub fn run(tier: Tier) -> i32 {
         let qs = prefix_queries(&prefixes);
         let before = acc.evaluations;
         let yielded = run_queries("C05", &spec, &bytes, &model, &qs, acc);
-        if !uni_file || i % 64 == 0 {
+        if (!uni_file && i % 4 == 0) || i % 256 == 0 {
             acc.count("files_also_queried_over_a_short_reading_source", 1);
             // ... of the file as received by a sink accepting short and interrupted writes
             match crate::common::write_file_short(&spec.cfg, &model.entries) {
